@@ -163,6 +163,53 @@ fn push_scenario() -> ScenFn {
     })
 }
 
+/// A Pull whose caller disappears after k polls, followed by timed re-pulls: the message it may have been handed
+/// stays leased until its deadline, and whoever gets it next holds it exclusively.
+fn abandoned_pull_scenario() -> ScenFn {
+    scen!(|cx| {
+        let a = cx.api.clone();
+        must!(cx, "setup:create-topic", { let a = a.clone(); async move { a.create_topic(T0).await } });
+        must!(cx, "setup:create-sub", { let a = a.clone(); async move { a.create_sub(S0, T0, 10, None).await } });
+        must!(cx, "setup:publish", { let a = a.clone(); async move { a.publish(T0, vec![(b"m".to_vec(), vec![]), (b"n".to_vec(), vec![])]).await } });
+        let kind = cx.choose("victim", 3);
+        let k = cx.choose("abandon-after-polls", 6);
+        let a2 = a.clone();
+        let h = cx.spawn("client:0-victim", async move {
+            match kind {
+                0 => { let _ = a2.pull(S0, 10, true).await; }
+                1 => { let _ = a2.pull(S0, 1, false).await; }
+                _ => {
+                    let (tx, r) = a2.streaming_pull(first_stream_req(S0, 10)).await;
+                    if let Ok(mut st) = r { let _keep = tx; while let Ok(Some(_)) = st.message().await {} }
+                }
+            }
+        });
+        if k < 5 {
+            tryv!(cx.quiesce_until_polls("client:0-victim", k as u32).await);
+        } else {
+            tryv!(cx.quiesce().await);
+        }
+        cx.abort_now(&h).await;
+        tryv!(cx.quiesce().await);
+        let mut delivs: Vec<Deliv> = vec![];
+        let mut batches = vec![];
+        for t in [5_000i64, 10_000 + SLACK_MS, 15_000 + 2 * SLACK_MS, 21_000, 26_000] {
+            tryv!(cx.advance_to_ms(t).await);
+            let got = tryv!(cx.settle("client:1-pull", { let a = a.clone(); async move { a.pull(S0, 10, true).await } }).await);
+            let got = match got { Ok(v) => v, Err(c) => return ScenarioOut::viol("abandoned-pull/pull-failed", format!("{:?}", c)) };
+            batches.push(got.iter().map(|m| m.msg_id.clone()).collect());
+            for m in got {
+                delivs.push(Deliv { msg: m.msg_id, ack: m.ack_id, recv_ms: cx.now_ms(), recv_step: cx.step(), who: format!("pull at {} ms", t) });
+            }
+        }
+        tryv!(lease_oracle("abandoned-pull", 10_000, &delivs, &[], &batches));
+        if delivs.is_empty() {
+            return ScenarioOut::viol("abandoned-pull/lost", "neither message was ever delivered again in 26 s".to_string());
+        }
+        ScenarioOut::ok(format!("victim={} k={} deliveries={}", kind, k, delivs.len()))
+    })
+}
+
 pub fn units(thorough: bool) -> Vec<Unit> {
     use COp::*;
     let d = if thorough { 4 } else { 3 };
@@ -185,6 +232,7 @@ pub fn units(thorough: bool) -> Vec<Unit> {
     for (n, p) in [("stream+stream", sets[2].1.clone()), ("pull1+stream", sets[1].1.clone())] {
         v.push(explore_unit(format!("sched-expiry/{}", n), format!("{:?}, then the clock crosses three ack deadlines while the consumers keep waiting", p), Bounds::new(d - 1), ExecCfg::default(), scenario("lease-expiry", p, true)));
     }
+    v.push(explore_unit("crash/abandoned-pull", "a Pull / blocking Pull / StreamingPull whose caller disappears after k polls (every k), then pulls at 5 s, 10.1 s, 15.2 s, 21 s, 26 s: lease oracle over what they receive", Bounds::new(if thorough { 2 } else { 1 }), ExecCfg::default(), abandoned_pull_scenario()));
     v.push(explore_unit(
         "sched/push+pull",
         "push dispatch (slow / failing endpoint answers enumerated) and a polling pull consumer on the same subscription",
